@@ -50,4 +50,32 @@ PROPS = {
         "modelled": "as C03 (same model); the SSI block of commit",
         "assumptions": ["reads and writes reach the manager through record_read/record_write (session level: see known findings)"],
     },
+    "C13": {
+        "stream": "rdf",
+        "lean_module": "GrafeoModel.Props.C13",
+        "lean_files": ["GrafeoModel/Model/Rdf.lean", "GrafeoModel/Proofs/RdfLemmas.lean", "GrafeoModel/Props/C13.lean"],
+        "cases": {"quick": 400, "thorough": 15000},
+        "stateless": False,
+        "trusted_base": COMMON_TB + [
+            "modelled, not verified: FxHashSet / hashbrown maps (as an insertion-ordered duplicate-free list and association lists; results compared as sorted multisets), Term/Triple derive(PartialEq, Eq, Hash) (terms are codes of a pool of structurally distinct terms incl. look-alikes), parking_lot locks (single-threaded here; interleavings are C20)",
+        ],
+        "modelled": "graph/rdf/store.rs: insert, remove, clear, find (index selection), triples_with_*, len, stats, insert_in_tx/remove_in_tx/commit_tx/rollback_tx/find_with_pending",
+        "assumptions": ["SPARQL parser/translator/planner are not modelled (query-level stream not yet built)"],
+    },
+    "C06": {
+        "stream": "wal",
+        "lean_module": "GrafeoModel.Props.C06",
+        "lean_files": ["GrafeoModel/Model/Wal.lean", "GrafeoModel/Proofs/WalDefs.lean", "GrafeoModel/Proofs/WalLemmas.lean", "GrafeoModel/Props/C06.lean"],
+        "allow_bv_decide": True,
+        "cases": {"quick": 40, "thorough": 400},
+        "stateless": True,
+        "trusted_base": COMMON_TB + [
+            "hypothesis of c06_corrupt_frame_never_applied, not proved: an in-place change of a payload changes its CRC-32 (true of CRC-32 for single-bit and short burst errors; the harness checks it on every generated flip)",
+            "crash model (assumption about the file system): a crash leaves a byte prefix of each log file; rename is atomic",
+            "modelled, not verified: BufWriter/File append semantics, bincode payloads are opaque byte strings here (their format is C16's stream), crc32fast (re-implemented bit by bit in the driver and compared through the file bytes)",
+        ],
+        "modelled": "wal/log.rs: WalManager::log framing, ensure_active_log append-on-reopen; wal/recovery.rs: read_record, recover_internal commit rule (TxCommit/TxAbort/Checkpoint), single log file",
+        "assumptions": ["single log file per scenario in this stream (rotation / checkpoint.meta skipping is modelled in Wal.recover but not yet streamed)",
+                        "GrafeoDB-level crash scenarios (open -> ops -> kill -> open) are C05's stream"],
+    },
 }
